@@ -379,4 +379,52 @@ def batch (O : Oracles) (qy : Query) (q : AggStmt) (joined : List FileLine) (fil
           (indexOf? j.joined.columns j.joinedColumn).isNone then none
       else batchOver O q (joinEnvs qy j joined lines) lines.length
 
+/-! ### the answer an open finding PREDICTS
+
+A deviation of the implementation from `batch` is attributed to an open finding only when the implementation's answer is
+EXACTLY the deviating answer the finding describes — computed here from the specification's own notions, not from the
+engine model. Anything else on the same input is an unknown failure. -/
+
+/-- the rows the lines present to the statement (as `batch` takes them) -/
+def rowsOfLines (qy : Query) (joined lines : List FileLine) : List Env :=
+  match qy.join with
+  | none => envsOf qy.table lines
+  | some j => joinEnvs qy j joined lines
+
+/-- some group's ARRAY_AGG starts with NULL -/
+def hasArrayAggFirstNull (O : Oracles) (q : AggStmt) (envs : List Env) : Bool :=
+  match keyedRows O q envs with
+  | none => false
+  | some rows => (groups rows).any (fun (_, g) => arrayAggFirstNull O q g)
+
+/-- D15: the number of lines consumed when the run is refused — the shortest prefix of the input after which some
+group's ARRAY_AGG starts with NULL (the refusal happens while that line is fed) -/
+def d15Lines (O : Oracles) (qy : Query) (q : AggStmt) (joined lines : List FileLine) : Nat :=
+  ((List.range (lines.length + 1)).find? (fun n => hasArrayAggFirstNull O q (rowsOfLines qy joined (lines.take n)))).getD
+    lines.length
+
+/-- **the predicted deviating answer** of a batch run that falls into an open finding (`none`: no finding applies, or the
+specification does not answer):
+* D15 (takes precedence: the refusal aborts the run): the run ends with the error `CannotCreateArrayOfNullType` after
+  `d15Lines` lines, having printed nothing;
+* D10: the specification's table computed over the groups in which some aggregate of the statement creates an entry —
+  exactly the invisible groups are missing; HAVING, DISTINCT and LIMIT apply to what is left; same columns, same order,
+  every line counted, no error. -/
+def predicted (O : Oracles) (qy : Query) (q : AggStmt) (joined : List FileLine) (files : List (List FileLine)) :
+    Option RunOut :=
+  match batch O qy q joined files with
+  | none => none
+  | some _ =>
+    let lines := files.flatten
+    match keyedRows O q (rowsOfLines qy joined lines) with
+    | none => none
+    | some rows =>
+      let gs := groups rows
+      if gs.any (fun (_, g) => arrayAggFirstNull O q g) then
+        some { error := some .cannotCreateArrayOfNullType, totalLines := d15Lines O qy q joined lines }
+      else if gs.any (fun (_, g) => !groupVisible O q g) then
+        (tableOfGroups O q (gs.filter (fun (_, g) => groupVisible O q g))).map (fun rows =>
+          { printed := printResult { columns := q.items.map (·.name), rows := rows } true, totalLines := lines.length })
+      else none
+
 end Sqlgrep.Spec.Agg
